@@ -269,6 +269,30 @@ def check(run):
                 if nb <= 3:
                     run.fail("modifier-meaning", bad, dict(definition=txt, r=r, expression=str(desc)))
                 break
+    # ---- the same form used several times in ONE model with parameters that agree to many digits (seed C09_8: instances cached under a 6-significant-digit key):
+    #      every occurrence denotes the form with ITS parameters
+    near = [("as.buck", "%r 0.3 30.0", 18003.7572, 18003.7581), ("as.polynomial", "%r 1.0", 1000000.0, 1000001.0), ("as.bornmayer", "%r 0.25", 1234.56781, 1234.56789),
+            ("as.constant", "%r", 2.00000011, 2.00000019), ("as.lj", "0.0125 %r", 3.00000004, 3.00000007)]
+    cfg = "[Tabulation]\ntarget : LAMMPS\ncutoff : 4.0\nnr : 9\n[Pair]\n"
+    expect = {}
+    for i, (form, tmpl, p1, p2) in enumerate(near):
+        a, b = tmpl % p1, tmpl % p2
+        cfg += "N%da-X : %s %s\nN%db-X : %s %s\nN%dc-X : sum(%s %s, product(as.constant 1.0, %s %s))\n" % (i, form, a, i, form, b, i, form, a, form, b)
+        fa = potable_callable("%s %s" % (form, a))
+        fb = potable_callable("%s %s" % (form, b))
+        expect["N%da" % i], expect["N%db" % i], expect["N%dc" % i] = fa, fb, (lambda r, fa=fa, fb=fb: fa(r) + 1.0 * fb(r))
+    try:
+        tab = Configuration().read(io.StringIO(cfg))
+        run.case(key=("near-equal-parameters",), kind="near-equal-parameters")
+        for pot in tab.potentials:
+            for r in (0.7, 1.3, 2.9):
+                got, want = pot.energy(r), expect[pot.speciesA](r)
+                if not close(got, want, 1e-13, 1e-300):
+                    run.fail("modifier-meaning", "one model, the same form with parameters that differ in the 7th+ digit: %s-X evaluates to %r at r=%r, the entry's own parameters give %r" % (pot.speciesA, got, r, want),
+                             dict(potable_file=cfg, pair=pot.speciesA, r=r))
+                    raise StopIteration
+    except StopIteration:
+        pass
     # ---- entry order ---------------------------------------------------------------------------------------------------------
     for i in range(run.n(20, 300)):
         entries = []
